@@ -177,7 +177,7 @@ def load_paradigm_from_csv_file(path, session=None):
             if len(row) > 3:
                 duration.append(float(row[3]))
             if len(row) > 4:
-                amplitude.append(row[4])
+                amplitude.append(float(row[4]))
 
         paradigm_info = [np.array(sess), np.array(cid), np.array(onset),
                     np.array(duration), np.array(amplitude)]
